@@ -55,25 +55,36 @@ type drv struct {
 	peerReqs map[string]int
 
 	// per trace: the environment's view (what the miners produced)
-	maxR    int
-	repl    int
-	batch   int
-	canon   []*block.Block          // canon[r] = canonical block of round r (canon[0] = genesis)
-	blocks  map[string]*block.Block // abstract name -> block ("g", "b3", "f3")
-	names   map[string]string       // hash -> abstract name
-	order   []string                // block names in creation order
-	txnOf   map[string]string       // txn hash -> abstract txn name
-	txnName map[string]string       // abstract txn name -> hash
-	txnBlk  map[string]string       // abstract txn name -> block name
-	dig     map[string]digests      // block name -> digests at production
-	txdig   map[string]int          // txn name -> digest
-	rounds  map[int]round.RoundI    // rounds registered in the chain in this trace
-	deliv   map[string]bool         // block is in the sharder's memory
-	mbN     int64                   // magic block number of the genesis magic block (1)
-	mbNums  []int64                 // real magic block numbers of this trace, in order (mbNums[0] = genesis)
+	maxR     int
+	repl     int
+	batch    int
+	canon    []*block.Block          // canon[r] = canonical block of round r (canon[0] = genesis)
+	blocks   map[string]*block.Block // abstract name -> block ("g", "b3", "f3")
+	names    map[string]string       // hash -> abstract name
+	order    []string                // block names in creation order
+	txnOf    map[string]string       // txn hash -> abstract txn name
+	txnName  map[string]string       // abstract txn name -> hash
+	txnBlk   map[string]string       // abstract txn name -> block name
+	dig      map[string]digests      // block name -> digests at production
+	txdig    map[string]int          // txn name -> digest
+	rounds   map[int]round.RoundI    // rounds registered in the chain in this trace
+	deliv    map[string]bool         // block is in the sharder's memory
+	fileSeen map[string]fileState    // block name -> block file as last decoded by the projection
+	mbN      int64                   // magic block number of the genesis magic block (1)
+	mbNums   []int64                 // real magic block numbers of this trace, in order (mbNums[0] = genesis)
 }
 
 type digests struct{ all, hdr, txn, out, mb int }
+
+type fileState struct {
+	size int64
+	mod  time.Time
+	bad  string
+}
+
+func (d *drv) blockFile(h string) string {
+	return filepath.Join(d.storeDir, "data", "blocks", string(h[0]), string(h[1]), string(h[2]), string(h[3]), string(h[4]), h[5:]+".dat.zlib")
+}
 
 func sum(b []byte) int { return int(crc32.ChecksumIEEE(b) & 0xFFFFFFF) }
 
@@ -276,6 +287,7 @@ func (d *drv) reset(id int, kind string, maxR, repl, batch int, args rec.M) {
 	d.txdig = map[string]int{}
 	d.rounds = map[int]round.RoundI{}
 	d.deliv = map[string]bool{"g": true}
+	d.fileSeen = map[string]fileState{}
 	d.peerMu.Lock()
 	for i := range d.peerUp {
 		d.peerUp[i] = true
@@ -583,13 +595,30 @@ func (d *drv) proj() {
 		if _, ok := d.hasSummary(b.Hash); ok {
 			sums = append(sums, n)
 		}
+		// the block file is decoded and compared again only when the file changed since the last projection
+		fi, ferr := os.Stat(d.blockFile(b.Hash))
+		if ferr != nil {
+			delete(d.fileSeen, n)
+		} else if seen, ok := d.fileSeen[n]; ok && seen.size == fi.Size() && seen.mod.Equal(fi.ModTime()) {
+			blks = append(blks, n)
+			if seen.bad != "" {
+				bad = append(bad, seen.bad)
+			}
+			continue
+		}
 		if sb, err := sc.GetBlockFromStore(b.Hash, b.Round); err == nil && sb != nil {
 			blks = append(blks, n)
+			fs := fileState{}
 			if g := digest(sb); g != d.dig[n] {
+				fs.bad = fmt.Sprintf("%s:%v%v%v%v%v", n, g.all == d.dig[n].all, g.hdr == d.dig[n].hdr, g.txn == d.dig[n].txn, g.out == d.dig[n].out, g.mb == d.dig[n].mb)
+				bad = append(bad, fs.bad)
 				if os.Getenv("VERIF_DBG_HDR") != "" {
 					fmt.Fprintf(os.Stderr, "HDR %s\n stored: %s\n orig:   %s\n", n, hdrOf(sb), hdrOf(b))
 				}
-				bad = append(bad, fmt.Sprintf("%s:%v%v%v%v%v", n, g.all == d.dig[n].all, g.hdr == d.dig[n].hdr, g.txn == d.dig[n].txn, g.out == d.dig[n].out, g.mb == d.dig[n].mb))
+			}
+			if ferr == nil {
+				fs.size, fs.mod = fi.Size(), fi.ModTime()
+				d.fileSeen[n] = fs
 			}
 		}
 	}
